@@ -94,7 +94,7 @@ func runC14(c *Ctx) {
 			okCond := fs.Cmp(func(e, tag ast.Expr, truth bool, fa *Fact) bool { return truth && ed.Prov(e) == "param#1" })
 			nCmp := 0
 			for _, fa := range fs.Facts {
-				if fa.Kind == FCmp {
+				if fa.Kind == FCmp && !fa.Sem {
 					nCmp++
 				}
 			}
